@@ -389,6 +389,10 @@ class World:
                 self.peer.send_frame(OP_PONG, b"")
             elif what == "garbage":
                 self.peer.send(b"\xff\xff\xff\xff")  # reserved bits + reserved opcode
+            elif what == "close:empty":
+                # a Close frame without a status code (RFC 6455 5.5.1 allows it; "1005 no status" for the receiver)
+                self.peer.sent_close_codes.append(-1)
+                self.peer.send_frame(OP_CLOSE, b"")
             elif what.startswith("close:"):
                 self.peer.send_close(int(what[6:]))
         elif kind == "peer_pause":
@@ -552,7 +556,8 @@ def execute(case: dict) -> tuple[bool, list[str]]:
             # test_concurrent_close): the Close may sit unread in the queue, so the handshake is not "clean" -> DON'T-CARE here,
             # MUST-1006 below when the peer sent none
             unread_by_design = w.side == "server" and any(r[0] == "CLOSING" for r in w.recv_log)
-            if code != peer_codes[0] and not unread_by_design:
+            acceptable = {0, 1005} if peer_codes[0] == -1 else {peer_codes[0]}  # (no status code in the frame: aiohttp says 0, the RFC 1005)
+            if code not in acceptable and not unread_by_design:
                 raise Violation("close-code/clean-handshake", f"both Close frames were exchanged (peer sent {peer_codes[0]}, we sent {close_code_of(frames[closes[0]][1])}) but close_code={code}; cfg={cfg} sched={sched}")
         garbage = any(e[0] == "peer" and e[1] == "garbage" for e in sched)
         cancels = any(e[0] == "cancel" for e in sched)
@@ -595,7 +600,7 @@ def base_cfg(side: str, **kw) -> dict:
 
 def menu(cfg: dict) -> list[list]:
     T = cfg["close_timeout"]
-    m = [["recv"], ["close", 1000], ["close", 4001], ["send"], ["peer", "text"], ["peer", "ping"], ["peer", "close:1000"], ["peer", "close:4000"],
+    m = [["recv"], ["close", 1000], ["close", 4001], ["send"], ["peer", "text"], ["peer", "ping"], ["peer", "close:1000"], ["peer", "close:4000"], ["peer", "close:empty"],
          ["peer", "garbage"], ["eof"], ["rst"], ["cancel", "recv"], ["cancel", "close"], ["tick", 0.6 * T], ["tick", 3 * T]]
     if cfg.get("compress"):
         m = [["recv"], ["close", 1000], ["send"], ["send_big"], ["peer", "close:1000"], ["eof"], ["cancel", "close"], ["tick", 3 * T]]
